@@ -31,7 +31,7 @@ func c09(c *an.Check) {
 	closedChannelReported(c, rd, "rwc.Conn.Read reports a closed connection as an error")
 	// Read copies the received chunk into the caller's buffer and returns its length
 	okCopy := false
-	for _, b := range rd.Blocks {
+	for _, b := range an.ScanBlocks(rd) {
 		for _, ins := range b.Instrs {
 			if cc, ok := ins.(*ssa.Call); ok && an.BuiltinName(cc) == "copy" && an.IsParam(cc.Call.Args[0], 1) {
 				src := varOf(cc.Call.Args[1])
@@ -54,7 +54,7 @@ func c09(c *an.Check) {
 	c.Require(okCopy, "PROVENANCE", "rwc.Conn.Read copies the received chunk into the caller's buffer", rd, "", 1, "copy(b, chunk received from packetCh)", "Read does not copy the received chunk into the caller's buffer")
 	// rxPump ordering: bytes read are queued before a read error ends the pump
 	var reads []*ssa.Call
-	for _, b := range rx.Blocks {
+	for _, b := range an.ScanBlocks(rx) {
 		for _, ins := range b.Instrs {
 			if isInvokeOf(ins, "", "Read") {
 				reads = append(reads, ins.(*ssa.Call))
@@ -152,7 +152,7 @@ func c09(c *an.Check) {
 	pumpCloses(c, rx, T)
 	// Write: loops until everything is written or an error occurs
 	var writes []*ssa.Call
-	for _, b := range wr.Blocks {
+	for _, b := range an.ScanBlocks(wr) {
 		for _, ins := range b.Instrs {
 			if isInvokeOf(ins, "", "Write") {
 				writes = append(writes, ins.(*ssa.Call))
@@ -185,7 +185,21 @@ func c09(c *an.Check) {
 				return r == an.EQ && an.IsIntConst(y, 0) && an.LenOf(s, x, func(a ssa.Value) bool { return an.IsParam(a, 1) })
 			}),
 			an.FactReq("written >= len(pkt)", func(s *an.State, x, y ssa.Value, r an.Rel) bool {
-				return written != nil && s.Key(x) == s.Key(written) && r != an.ANY && r&an.LT == 0 && an.LenOf(s, y, func(a ssa.Value) bool { return an.IsParam(a, 1) })
+				if written == nil || r == an.ANY || r&an.LT != 0 || !an.LenOf(s, y, func(a ssa.Value) bool { return an.IsParam(a, 1) }) {
+					return false
+				}
+				if s.Key(x) == s.Key(written) {
+					return true
+				}
+				// post-tested loop: the test is made on the advanced count (written + n) that feeds the loop variable
+				if phi, ok := written.(*ssa.Phi); ok {
+					for _, e := range phi.Edges {
+						if add, isAdd := e.(*ssa.BinOp); isAdd && add.Op == token.ADD && s.Key(x) == s.Key(add) {
+							return true
+						}
+					}
+				}
+				return false
 			}))}})
 		c.ErrProp(an.ErrPropSpec{Construct: "rwc.Conn.Write propagates write errors", Fn: wr, ErrIdx: -1, Failing: func(s *an.State) (bool, string) { return s.NonNil(an.ErrResult(w, -1)), "rwc.Write failed" }})
 	}
@@ -246,7 +260,7 @@ func ioWrapperTransparency(c *an.Check) {
 			}
 			n++
 			var inner []*ssa.Call
-			for _, b := range fn.Blocks {
+			for _, b := range an.ScanBlocks(fn) {
 				for _, ins := range b.Instrs {
 					if call, ok := ins.(*ssa.Call); ok && call.Call.IsInvoke() && call.Call.Method.Name() == fn.Name() {
 						inner = append(inner, call)
